@@ -122,7 +122,7 @@ var qualifiedMap = map[string]string{
 var atomicTypes = map[string]bool{"Value": true, "Bool": true, "Int32": true, "Int64": true, "Uint32": true, "Uint64": true, "Uintptr": true, "Pointer": true}
 
 var forbidden = map[string]bool{
-	"sync.WaitGroup": true, "sync.Cond": true, "sync.Once": true, "sync.Map": true, "sync.NewCond": true,
+	"sync.Cond": true, "sync.Map": true, "sync.NewCond": true,
 	"sync.OnceFunc": true, "sync.OnceValue": true, "sync.OnceValues": true,
 	"time.NewTimer": true, "time.NewTicker": true, "time.After": true, "time.AfterFunc": true, "time.Tick": true,
 	"net.DialTimeout": true, "net.Listen": true, "net.DialTCP": true,
@@ -169,6 +169,32 @@ func (r *rewriter) mutexMethod(call *ast.CallExpr) (fn string, ptr ast.Expr, col
 	case "Pool":
 		// sync.Pool is replaced as a type by simrt.Pool, which has the same methods
 		return
+	case "Once", "WaitGroup":
+		want := map[string]string{"Once.Do": "OnceDo", "WaitGroup.Add": "WGAdd", "WaitGroup.Done": "WGDone", "WaitGroup.Wait": "WGWait"}
+		to, known := want[named.Obj().Name()+"."+m.Name()]
+		if !known {
+			r.errorf(call.Pos(), "sync.%s.%s is not modelled", named.Obj().Name(), m.Name())
+			return
+		}
+		x := sel.X
+		t := r.info.TypeOf(x)
+		idx := selection.Index()
+		for _, i := range idx[:len(idx)-1] {
+			st := structOf(t)
+			if st == nil {
+				r.errorf(call.Pos(), "cannot resolve embedded %s path", named.Obj().Name())
+				return
+			}
+			f := st.Field(i)
+			x = &ast.SelectorExpr{X: x, Sel: ast.NewIdent(f.Name())}
+			t = f.Type()
+		}
+		if _, isPtr := t.Underlying().(*types.Pointer); isPtr {
+			ptr = x
+		} else {
+			ptr = &ast.UnaryExpr{Op: token.AND, X: x}
+		}
+		return to, ptr, false, true
 	default:
 		r.errorf(call.Pos(), "call of sync.%s.%s is not modelled", named.Obj().Name(), m.Name())
 		return
@@ -657,7 +683,14 @@ func (r *rewriter) exprTop(e ast.Expr) ast.Expr {
 	case *ast.CallExpr:
 		if fn, ptr, cold, ok := r.mutexMethod(x); ok {
 			r.exprs(ptr)
-			return r.call(fn, r.newSite(x.Pos(), fn, cold), ptr)
+			args := []ast.Expr{r.newSite(x.Pos(), fn, cold), ptr}
+			if fn == "OnceDo" || fn == "WGAdd" {
+				for i := range x.Args {
+					x.Args[i] = r.expr(x.Args[i])
+				}
+				args = append(args, x.Args...)
+			}
+			return r.call(fn, args...)
 		}
 		if pkg, name, ok := r.qualified(x.Fun); ok && pkg == "sync/atomic" {
 			for i := range x.Args {
